@@ -32,7 +32,11 @@ type signer struct {
 	// supplied is the caller's buffer that was handed to NewPrivateKey; the
 	// caller overwrites it at some later step (nil once that has happened)
 	supplied []byte
-	priv     *secec.PrivateKey
+	// suppliedSch: the buffer handed to NewSchnorrPrivateKey, for signers
+	// whose Schnorr key was imported from bytes rather than derived from the
+	// ECDSA key object (nil otherwise, and once the caller has overwritten it)
+	suppliedSch []byte
+	priv        *secec.PrivateKey
 	sch      *bitcoin.SchnorrPrivateKey
 	q        ref.Pt // model public key d*G
 	qBytes   []byte
@@ -141,6 +145,15 @@ func (w *World) addKey(i int, d *big.Int) bool {
 	}
 	sg.priv = priv
 	sg.sch = bitcoin.NewSchnorrPrivateKeyFromECDSA(priv)
+	if w.t.Chance("fixture", "sch.from_bytes", 1, 2) {
+		// the other route to the same key pair: imported from a caller's
+		// buffer (which the caller overwrites later in the history)
+		buf := append([]byte(nil), sg.dBytes...)
+		if sk, err := bitcoin.NewSchnorrPrivateKey(buf); err == nil {
+			sg.sch, sg.suppliedSch = sk, buf
+			w.r.Probe("schnorr_key_imported_from_bytes")
+		}
+	}
 	sg.q = ref.BaseMul(d)
 	sg.qBytes = sg.q.Uncompressed()
 	w.keys = append(w.keys, sg)
